@@ -156,12 +156,14 @@ def r18_1b(run):
 def r18_2_3(run):
     u = CSE(run)
     g = cfg_of(u)
+    rn = returned_names(u)
+    SE = rn[0] if len(rn) == 1 else 'socks_endpoint'
     sc = [c for c in calls_in(u) if callee_attr(c) == 'set_conf']
     for c in sc:
         in_loop = any(c is a for l in ast.walk(u.node) if isinstance(l, (ast.For, ast.While)) for a in ast.walk(l))
         run.ob('R18.2', u, c, 'one SETCONF lists all entries (not one per entry)', not in_loop, slot='single-setconf', message='set_conf inside a loop')
         for n in g.nodes_containing(c):
-            gd = g.guarded_by(n, lambda t: isinstance(t, ast.Compare) and dotted(t.left) == 'socks_endpoint' and is_none(t.comparators[0]))
+            gd = g.guarded_by(n, lambda t: isinstance(t, ast.Compare) and dotted(t.left) == SE and is_none(t.comparators[0]))
             ok = any((lab == 'T') == isinstance(t.ast.ops[0], ast.Is) for t, lab in gd)
             run.ob('R18.3', u, c, 'configuration is changed only when no existing port was usable', ok, slot='only-when-none',
                    message='set_conf reachable although a usable existing SOCKS endpoint was found')
@@ -174,7 +176,7 @@ def r18_2_3(run):
     else:
         run.ob('R18.2', u, u.node, 'at most one SETCONF per call', True, slot='setconf-once')
     # existing port preferred: the loop over existing ports assigns socks_endpoint; requested port filters by equality
-    loops = [n for n in walk_unit(u) if isinstance(n, ast.For) and any(isinstance(a, ast.Assign) and assign_to(a, 'socks_endpoint') is not None for a in ast.walk(n))]
+    loops = [n for n in walk_unit(u) if isinstance(n, ast.For) and any(isinstance(a, ast.Assign) and assign_to(a, SE) is not None for a in ast.walk(n))]
     run.ob('R18.3', u, u.node, 'existing ports are tried before configuring a new one', len(loops) == 1, slot='try-existing', message='%d loops assigning socks_endpoint' % len(loops))
     for lp in loops:
         tv = lp.target.id
@@ -184,7 +186,7 @@ def r18_2_3(run):
                message='requested port compared with %s' % [src(t) for t in tests])
     # the returned endpoint for the added port is built from the requested/new config
     rets = [n for n in g.real_nodes() if n.kind == 'stmt' and isinstance(n.ast, ast.Return)]
-    ok = bool(rets) and all(dotted(r.ast.value) == 'socks_endpoint' for r in rets)
+    ok = bool(rets) and all(dotted(r.ast.value) == SE for r in rets)
     run.ob('R18.3', u, u.node, 'the chosen endpoint is returned', ok, slot='returns', message='returns %s' % [src(r.ast.value) for r in rets])
 
 
@@ -196,6 +198,7 @@ def r18_4(run):
     g = cfg_of(cn)
     loops = [n for n in g.live if n.kind == 'iter' and dotted(n.ast.iter) == 'self.socks_ports_to_try']
     run.floor('R18.4', 'fallback loops in connect', len(loops), 1)
+    LE = set()
     for lp in loops:
         node = lp.ast
         trys = [t for t in ast.walk(node) if isinstance(t, ast.Try)]
@@ -210,16 +213,16 @@ def r18_4(run):
             run.ob('R18.4', cn, t, 'only a connection error moves on to the next port', okh, slot='except-type', message='handler catches %s' % types)
             for h in hs:
                 esc = [x for b in h.body for x in walk_local(b, descend_root=False) if isinstance(x, (ast.Raise, ast.Return, ast.Break))]
-                rec = [x for b in h.body for x in ast.walk(b) if isinstance(x, ast.Assign) and dotted(x.targets[0]) == 'last_error' and dotted(x.value) == h.name]
+                rec = [x for b in h.body for x in ast.walk(b) if isinstance(x, ast.Assign) and isinstance(x.targets[0], ast.Name) and dotted(x.value) == h.name]
+                LE.update(x.targets[0].id for x in rec)
                 run.ob('R18.4', cn, h, 'the handler records the error and continues', not esc and bool(rec), slot='handler-body', message='handler body: %s' % [src(b)[:30] for b in h.body])
         run.ob('R18.4', cn, node, 'each fallback attempt is individually guarded', ok, slot='try-in-loop', message='%d try blocks in the loop' % len(trys))
         # after the loop the last error is raised
         after = [s for lab, s in lp.succ if lab == 'exit']
         r = g.reachable(after)
-        rs = [n for n in r if n.kind == 'stmt' and isinstance(n.ast, ast.Raise) and dotted(n.ast.exc) == 'last_error']
+        rs = [n for n in r if n.kind == 'stmt' and isinstance(n.ast, ast.Raise) and dotted(n.ast.exc) in LE]
         run.ob('R18.4', cn, node, 'if all ports fail the last error is reported', bool(rs), slot='raise-last', message='no "raise last_error" after the loop')
         normal = [e for e in g.normal_exits() if e in g.reachable(after, avoid=lambda n: n in rs)]
-        tests = [t for t in g.live if t.kind == 'test' and mentions(t.ast, 'last_error')]
         run.ob('R18.4', cn, node, 'the loop order is the list order', dotted(node.iter) == 'self.socks_ports_to_try', slot='order', message='iterates %s' % src(node.iter))
     # the loop is only used when no endpoint was given
     for lp in loops:
